@@ -101,7 +101,6 @@ def run_case(c, mesh=None):
     out = {}
     np.random.seed(int(c.get("seed", 0)) % (2 ** 31))
     m = build_mesh(c["V"], c["F"]) if mesh is None else mesh
-    before = attr_names(m)
     elem, order = c["elem"], int(c["order"])
     cotan = bool(c.get("cotan", True))
     kw = dict(order=order, features=bool(c["features"]), n_smooth=int(c["n_smooth"]), verbose=False, use_cotan=cotan)
@@ -110,7 +109,37 @@ def run_case(c, mesh=None):
         kw["smooth_normals"] = bool(c.get("smooth_normals", True))
     if c.get("smooth_attach_weight") is not None:
         kw["smooth_attach_weight"] = float(c["smooth_attach_weight"])
-    fld = ff.SurfaceFrameField(m, elem, **kw)
+    # ---- garbage already sitting under the names of the outputs / work attributes (a mesh that was used before)
+    if c.get("preseed"):
+        rs = np.random.RandomState(int(c.get("seed", 0)) % (2 ** 31))
+        for cont, name, typ, n_el in ((m.vertices, "singuls", float, len(m.vertices)), (m.faces, "singuls", int, len(m.faces)),
+                                      (m.edges, "angles", float, len(m.edges)), (m.faces, "fixed", bool, len(m.faces)),
+                                      (m.vertices, "feature", bool, len(m.vertices)), (m.edges, "feature", bool, len(m.edges)),
+                                      (m.vertices, "corners", int, len(m.vertices))):
+            if not cont.has_attribute(name):
+                a = cont.create_attribute(name, typ)
+                for i in range(n_el):
+                    if rs.rand() < 0.5:
+                        a[i] = typ(rs.randint(1, 4)) if typ is not bool else True
+    before = attr_names(m)
+    # ---- call form: every keyword spelled out / defaults omitted / leading arguments positional / flags as 0-1 integers
+    form = c.get("callform", "explicit")
+    DEFAULTS = {"order": 4, "features": True, "n_smooth": 3, "use_cotan": True, "smooth_normals": True, "verbose": False}
+    if form == "omit_defaults":
+        kw = {k: v for k, v in kw.items() if k not in DEFAULTS or DEFAULTS[k] != v or isinstance(v, bool) != isinstance(DEFAULTS[k], bool)}
+        fld = ff.SurfaceFrameField(m, elem, **kw)
+    elif form == "positional":
+        rest = {k: v for k, v in kw.items() if k not in ("order", "features", "verbose", "n_smooth")}
+        fld = ff.SurfaceFrameField(m, elem, kw["order"], kw["features"], kw["verbose"], kw["n_smooth"], **rest)
+    elif form == "int_flags":
+        kw2 = dict(kw)
+        for k in ("features", "use_cotan", "smooth_normals"):
+            if k in kw2:
+                kw2[k] = 1 if kw2[k] else 0
+        fld = ff.SurfaceFrameField(m, elem, **kw2)
+    else:
+        fld = ff.SurfaceFrameField(m, elem, **kw)
+    out["callform"] = form
     out["edges"] = [[int(a), int(b)] for a, b in m.edges]
     out["n_boundary_edges"] = len(m.boundary_edges)
     # ---- the protocol: which public stage methods the caller uses, in which order
@@ -127,19 +156,29 @@ def run_case(c, mesh=None):
 
     def w_opt(*a, **k):
         rec.reset()
-        snap["n_opt"] += 1
-        return orig_opt(*a, **k)
+        r = orig_opt(*a, **k)
+        snap["n_opt"] += 1        # counted when the stage really ran (an optimize() refused by _check_init is not one)
+        return r
     fld.initialize, fld.optimize = w_init, w_opt
     final_ns = int(c["n_smooth"])
     if proto == "init_opt_ns_opt":
         fld.n_smooth = 0 if final_ns > 0 else 2     # the first optimisation runs with another number of smoothing steps
     calls = {"init_opt": ["initialize", "optimize"], "run": ["run"], "call": ["__call__"], "init_run": ["initialize", "run"],
              "init_call": ["initialize", "__call__"], "init_opt_run": ["initialize", "optimize", "run"], "run_run": ["run", "run"],
-             "opt_opt": ["initialize", "optimize", "optimize"], "init_opt_ns_opt": ["initialize", "optimize", "n_smooth", "optimize"]}[proto]
+             "opt_opt": ["initialize", "optimize", "optimize"], "init_opt_ns_opt": ["initialize", "optimize", "n_smooth", "optimize"],
+             # an optimisation attempted too early raises (documented); the object is then used normally
+             "early_opt_run": ["!optimize", "!flag_singularities", "run"],
+             "init_init_opt": ["initialize", "initialize", "optimize"]}[proto]
     with rec:
         try:
             for name in calls:
-                if name == "n_smooth":
+                if name.startswith("!"):
+                    try:
+                        getattr(fld, name[1:])()
+                        out["early_call_accepted"] = name[1:]
+                    except Exception:  # noqa - expected: "FrameField was not initialized properly"
+                        pass
+                elif name == "n_smooth":
                     fld.n_smooth = final_ns
                 elif name == "__call__":
                     fld()
@@ -204,6 +243,12 @@ def run_case(c, mesh=None):
     # singularities
     out["prev_singuls"] = (attr_values(m.vertices, "singuls", nV) if elem == "faces" else attr_values(m.faces, "singuls", nF))
     fld.flag_singularities()
+    if c.get("flag_twice"):
+        first = attr_values(m.vertices, "singuls", nV) if elem == "faces" else attr_values(m.faces, "singuls", nF)
+        fld.flag_singularities()
+        second = attr_values(m.vertices, "singuls", nV) if elem == "faces" else attr_values(m.faces, "singuls", nF)
+        out["flag_twice_same"] = bool(first == second)
+        out["prev_singuls"] = first
     if elem == "vertices":
         from mouette import attributes
         cv = attributes.parallel_transport_curvature(m, fld.conn, persistent=False)
